@@ -426,8 +426,9 @@ def JOBS(tier):
                         continue
                     if other == "request+close" and (script not in (0, 2) or (quick and maxsize == 2)):
                         continue
+                    rc = other == "request+close"
                     part = {"maxsize": maxsize, "block": block, "script": script, "other": other,
-                            "wmax": 11 if quick else 30, "xmax": (7 if quick else 14) + (12 if other == "request+close" else 0)}
+                            "wmax": (8 if rc else 11) if quick else 30, "xmax": (7 if quick else 14) + (9 if rc else 0)}
                     part["n"] = space_size(dims_of(part))
                     jobs.append({"func": "c02_sched", "timeout": t, "path_timeout": 60, "samples": 1, "part": part})
     return jobs
